@@ -121,6 +121,8 @@ type c17Pattern struct {
 
 var c17Patterns = []c17Pattern{
 	{"GET", "/r/{name}", ""}, {"POST", "/r2/x", ""}, {"GET", "/r3/{child.name=a/*}/{extra_text=**}", ""}, {"CUSTOMVERB", "/r4/{name}:act", ""},
+	// the custom kind "*" (any HTTP method) on the template the first pattern binds for GET: both can be served
+	{"*", "/r/{name}", ""},
 	{"GET", "r/x", "template without leading slash"}, {"GET", "/a/**/b", "'**' not last"}, {"GET", "/{name}/{name}", "duplicate variable"},
 	{"GET", "/{nope}", "variable names no field"}, {"GET", "/{tags}", "variable names a repeated field"}, {"GET", "/{all.int32_to_string_map}", "variable names a map field"},
 	{"GET", "", "blank template"}, {"GET", "/a%zz", "bad escape in template"}, {"GET", "/{child}", "variable names a message field"}, {"", "/r5", "blank HTTP method"},
@@ -230,7 +232,7 @@ func init() {
 		for i := 0; i < nRules; i++ {
 			r := ruleSpec{sel: c17Selectors[c.Choose(fmt.Sprintf("rule%d-selector", i), len(c17Selectors))], pat: c17Patterns[c.Choose(fmt.Sprintf("rule%d-pattern", i), len(c17Patterns))],
 				body: c17Bodies[c.Choose(fmt.Sprintf("rule%d-body", i), len(c17Bodies))], addl: c.Choose(fmt.Sprintf("rule%d-additional", i), 4)}
-			if i == 1 && r.pat.path == rules[0].pat.path && r.pat.bad == "" {
+			if i == 1 && r.pat.path == rules[0].pat.path && r.pat.method == rules[0].pat.method && r.pat.bad == "" {
 				// default of the second rule would duplicate the first: shift to the next valid pattern
 				r.pat = c17Patterns[1]
 			}
@@ -417,6 +419,9 @@ func init() {
 				url := c17URL(t)
 				got = nil
 				hm := pat.method
+				if hm == "*" {
+					hm = "PATCH" // any method no other rule of the alphabet binds on this template
+				}
 				spec := &drive.ReqSpec{Method: hm, Target: url, Header: http.Header{}, ContentLength: -1, NoBody: true}
 				if hm != "GET" {
 					spec.NoBody, spec.Body = false, drive.NewBody([]byte(`{}`))
@@ -592,7 +597,7 @@ func init() {
 		ID:    "C17",
 		Level: "exploration",
 		Rule: "All combinations up to D deviations from a plain configuration: target protocols (6 settings incl. none, an invalid value, REST-only), codecs (5 incl. none, unknown, the extra codec), compressions (4 incl. unknown), each given as transcoder-wide default and/or per service (conflicting); one service, two services (the second with options of its own), the same service twice (same descriptor, or two equal descriptor instances), an unresolvable service; " +
-			"0-2 WithRules rules with selector (12: exact names incl. one that is a prefix of another method, '.*' forms, '*', misplaced wildcards, empty, no match), pattern (16: 4 valid, 12 invalid), body/response_body (9 incl. unknown and dotted), additional bindings (valid, nested, duplicate). " +
+			"0-2 WithRules rules with selector (12: exact names incl. one that is a prefix of another method, '.*' forms, '*', misplaced wildcards, empty, no match), pattern (20: 5 valid incl. the custom kind '*' beside GET on one template, 15 invalid), body/response_body (9 incl. unknown and dotted), additional bindings (valid, nested, duplicate). " +
 			"Oracle: an independent predicate built from the property's rejection classes; accepted configurations are probed (every binding reachable through the URL built from its template and reaching exactly the named method; effective per-service-over-default options). Non-trivial = configurations with exactly one rejection reason, and accepted ones.",
 		Assume:      []string{"limits of 0 and other settings the property does not list are not varied"},
 		Scenarios:   []Scenario{{Name: "configurations", Fn: scn, QuickBound: 3, ThoroughBound: 4}},
